@@ -163,6 +163,30 @@ class DuckBody(io.IOBase):
         return n
 
 
+class AutoCloseRaw(io.RawIOBase):
+    """Raw source that reports closed as soon as it has handed out its last byte - the default behaviour of
+    urllib3.HTTPResponse (requests.get(..., stream=True).raw): the connection is released with the last byte."""
+
+    def __init__(self, pipe: Pipe) -> None:
+        super().__init__()
+        self.pipe = pipe
+
+    def readable(self) -> bool:
+        return True
+
+    def seekable(self) -> bool:
+        return False
+
+    def readinto(self, b) -> int:
+        data = self.pipe.take(len(b))
+        n = len(data)
+        b[:n] = data
+        if self.pipe.eof and self.pipe.cut_at is None and self.pipe.reset_at is None \
+                and self.pipe.rpos >= len(self.pipe.buf):
+            self.close()
+        return n
+
+
 class _NullRawWriter(io.RawIOBase):
     def writable(self) -> bool:
         return True
@@ -221,8 +245,8 @@ class SeekableRaw(io.RawIOBase):
         return k
 
 
-FRONTENDS = ("bytesio", "raw", "buffered", "seekable_buffered", "gzip", "duck", "rwpair")
-LIVE_FRONTENDS = ("raw", "buffered", "duck", "rwpair")
+FRONTENDS = ("bytesio", "raw", "buffered", "seekable_buffered", "gzip", "duck", "rwpair", "autoclose")
+LIVE_FRONTENDS = ("raw", "buffered", "duck", "rwpair", "autoclose")
 
 
 def open_frontend(kind: str, sim: Sim, data: bytes | None = None, pipe: Pipe | None = None,
@@ -264,6 +288,8 @@ def open_frontend(kind: str, sim: Sim, data: bytes | None = None, pipe: Pipe | N
         return raw, pipe
     if kind == "duck":
         return DuckBody(pipe), pipe
+    if kind == "autoclose":
+        return AutoCloseRaw(pipe), pipe
     if kind == "rwpair":
         # what socket.makefile("rwb") returns: a BufferedIOBase that is not a BufferedReader
         return io.BufferedRWPair(raw, _NullRawWriter(), bufsize or io.DEFAULT_BUFFER_SIZE), pipe
